@@ -13,6 +13,7 @@ import (
 	"path/filepath"
 	"runtime"
 	"runtime/debug"
+	"runtime/pprof"
 	"sort"
 	"strings"
 	"sync"
@@ -27,8 +28,8 @@ import (
 type Section struct {
 	Name   string
 	Body   func(x *X)
-	Bound  int  // deviation bound, -1 = none
-	Serial bool // run with a single worker (global entropy tape etc.)
+	Bound  int    // deviation bound, -1 = none
+	Serial bool   // run with a single worker (global entropy tape etc.)
 	Tiers  string // "" = both, "quick" or "thorough" = only that tier
 }
 
@@ -79,28 +80,30 @@ type secState struct {
 }
 
 type Run struct {
-	Prop        string
-	Level       string
-	Tier        string
-	Seed        int64
-	Workers     int
-	start       time.Time
-	deadline    time.Time
-	secs        []*secState
-	mu          sync.Mutex
-	violations  []Violation
-	known       map[string]string // finding key -> description
-	knownHit    map[string]int64
-	Assumptions []string
-	Rule        string
-	Extra       map[string]any
-	States      int64
-	Transitions int64
-	Traces      int64
-	mcSamples   []any
-	notExh      []string
-	evidence    string
-	onlySec     string
+	Prop          string
+	Level         string
+	Tier          string
+	Seed          int64
+	Workers       int
+	start         time.Time
+	deadline      time.Time
+	secs          []*secState
+	mu            sync.Mutex
+	violations    []Violation
+	known         map[string]string // finding key -> description
+	knownHit      map[string]int64
+	Assumptions   []string
+	Rule          string
+	Extra         map[string]any
+	States        int64
+	Transitions   int64
+	Traces        int64
+	mcSamples     []any
+	notExh        []string
+	evidence      string
+	onlySec       string
+	replaying     bool
+	extReplayHits int
 }
 
 var theRun *Run
@@ -108,6 +111,10 @@ var theRun *Run
 func (x *X) Tier() string    { return x.run.Tier }
 func (x *X) Thorough() bool  { return x.run.Tier == "thorough" }
 func (x *X) Replaying() bool { return x.replay }
+
+// ReplayVector returns the raw choice vector of the replay file (used by sections whose
+// violations come from engines E2/E3 and carry an operation history or a schedule).
+func (x *X) ReplayVector() []int { return x.prefix }
 
 // Choose returns a value in [0,n); every value is explored.
 func (x *X) Choose(name string, n int) int { return x.choose(name, n, false) }
@@ -474,7 +481,13 @@ func Main(prop, level, rule string, sections []Section) {
 	workers := flag.Int("workers", runtime.NumCPU(), "worker goroutines")
 	only := flag.String("section", "", "only run sections with this prefix")
 	maxmin := flag.Float64("deadline-min", 0, "internal deadline in minutes (0 = tier default)")
+	cpuprof := flag.String("cpuprofile", "", "write CPU profile")
 	flag.Parse()
+	if *cpuprof != "" {
+		f, _ := os.Create(*cpuprof)
+		pprof.StartCPUProfile(f)
+		stopProfile = func() { pprof.StopCPUProfile(); f.Close() }
+	}
 	r := &Run{Prop: prop, Level: level, Tier: *tier, Workers: *workers, start: time.Now(), Rule: rule,
 		known: loadKnown(prop), knownHit: map[string]int64{}, Extra: map[string]any{}, evidence: *evidence, onlySec: *only}
 	if s := os.Getenv("VERIF_SEED"); s != "" {
@@ -518,7 +531,10 @@ func Main(prop, level, rule string, sections []Section) {
 	os.Exit(r.report())
 }
 
+var stopProfile = func() {}
+
 func (r *Run) report() int {
+	stopProfile()
 	// confirm violations by re-execution (determinism), keep the smallest per key
 	sort.Slice(r.violations, func(i, j int) bool {
 		a, b := r.violations[i], r.violations[j]
@@ -627,6 +643,11 @@ func ReportExternal(section, key, msg string, choices []int, labels []string) {
 		r.knownHit[key]++
 		return
 	}
+	if r.replaying {
+		fmt.Printf("[%s] %s: %s\n", r.Prop, key, msg)
+		r.extReplayHits++
+		return
+	}
 	if len(r.violations) < 2000 {
 		r.violations = append(r.violations, Violation{Property: r.Prop, Section: "@" + section, Key: key, Msg: msg, Choices: choices, Labels: labels, Tier: r.Tier})
 	}
@@ -650,7 +671,12 @@ func (r *Run) doReplay(path string) int {
 		fmt.Println("replay: unknown section", v.Section)
 		return 2
 	}
+	r.replaying = true
 	x := r.execute(ss, v.Choices, true)
+	if r.extReplayHits > 0 {
+		fmt.Printf("VIOLATION property=%s replay=%s\n", r.Prop, path)
+		return 1
+	}
 	for i := range x.choices {
 		fmt.Printf("  choice %-24s = %d %s\n", x.names[i], x.choices[i], x.labels[i])
 	}
@@ -757,3 +783,6 @@ func (r *Run) writeEvidence(nviol int, known []string) {
 		fmt.Println("evidence:", err)
 	}
 }
+
+// Deadline is the internal deadline of this run (exceeding it ends exploration with exhaustive:false).
+func Deadline() time.Time { return theRun.deadline }
